@@ -205,7 +205,8 @@ where
     check_bool(&format!("{}.empty batch gives no output", name), ye.is_empty());
     // a large batch of concrete rows (code paths selected by the batch size: chunking, fast paths)
     if big > 0 {
-        let bq = Array2::from_shape_fn((big, q.ncols()), |(r, j)| F::lit((((r * 7 + j * 3) % 11) as f64) - 5.0));
+        // every ninth row lies far away (x 1e4), every thirteenth very close to the origin (x 1e-6)
+        let bq = Array2::from_shape_fn((big, q.ncols()), |(r, j)| F::lit(((((r * 7 + j * 3) % 11) as f64) - 5.0) * if r % 9 == 8 { 1e4 } else if r % 13 == 12 { 1e-6 } else { 1.0 }));
         let yb: Array1<T> = model.predict(&bq);
         check_bool(&format!("{}.large batch: one output per row", name), yb.len() == big);
         for r in 0..big.min(yb.len()) {
@@ -349,7 +350,8 @@ fn batches_agree_fn<F: Scalar, T: Clone>(name: &str, q: &Array2<F>, big: usize, 
     let empty = Array2::from_elem((0, q.ncols()), F::lit(0.0));
     check_bool(&format!("{}.empty batch gives no output", name), pred(empty.view()).is_empty());
     if big > 0 {
-        let bq = Array2::from_shape_fn((big, q.ncols()), |(r, j)| F::lit((((r * 7 + j * 3) % 11) as f64) - 5.0));
+        // every ninth row lies far away (x 1e4), every thirteenth very close to the origin (x 1e-6)
+        let bq = Array2::from_shape_fn((big, q.ncols()), |(r, j)| F::lit(((((r * 7 + j * 3) % 11) as f64) - 5.0) * if r % 9 == 8 { 1e4 } else if r % 13 == 12 { 1e-6 } else { 1.0 }));
         let yb = pred(bq.view());
         check_bool(&format!("{}.large batch: one output per row", name), yb.len() == big);
         for r in 0..big.min(yb.len()) {
